@@ -111,7 +111,7 @@ def recursion_bounded(ctx):
               detail=("consuming-removal " if consuming else "") + ("ancestor-test" if ancestor else ""), props=["C09"])
 
 
-@rule("C09.ALL-DEPS-VISITED", ["C09"], """the resolver recurses over the target's full dependency list (declared dependencies plus `X.output` producers), leaving the loop only when the
+@rule("C09.ALL-DEPS-VISITED", ["C09", "C13"], """the resolver recurses over the target's full dependency list (declared dependencies plus `X.output` producers), leaving the loop only when the
       list is exhausted or an error is propagated""", "K10", floor=1)
 def all_deps_visited(ctx):
     b = resolver(ctx)
@@ -135,6 +135,8 @@ def all_deps_visited(ctx):
 def output_of_build_only(ctx):
     b = resolver(ctx)
     ext = [(bb, t) for bb, t in b.calls() if callee_base(t).endswith("Target::extend_input") or "extend_input" in callee_base(t)]
+    # (a wrapper around it - `extend_input_with_output_of(&producer)`, whose code is in view here - is judged by the call it contains)
+    ext = [(bb, t) for bb, t in ext if not any("extend_input" in x for x in ctx.f.cg.reach([callee_base(t)], cross_spawn=False) - {callee_base(t)})]
     ctx.need(ext, "call extending the consumer's input")
     n_ok = 0
     for bb, t in ext:
@@ -524,6 +526,8 @@ def unique(ctx):
             d = callee_decl(t)
             if re.search(r"HashMap<std::option::Option<std::string::String>, \([\w:]*PathBuf, [\w:]*Project\)>", d) and re.search(r"::(collect|from_iter|extend|insert)(::<.*>)?$|>::collect::<", d):
                 cons.append((b, bb, t))
+            elif re.search(r"HashMap::<std::option::Option<std::string::String>, \([\w:]*PathBuf, [\w:]*Project\)>::entry$", d):
+                cons.append((b, bb, t))   # filled through the entry API
     ctx.need(cons, "construction of the name-keyed project map")
     # idiom (b): a duplicate test in the loader: HashSet::insert on project names whose false edge errors, dominating the acceptance of the loaded set
     dup_tests = []
@@ -576,6 +580,11 @@ def unique(ctx):
                 dup_tests.append((lb, None))
     for (b, bb, t) in cons:
         checked_insert = callee_decl(t).endswith("::insert") and any(True for _ in [0] if _result_checked(b, t))
+        if callee_decl(t).endswith("::entry"):
+            # `match map.entry(name) { Vacant(e) => e.insert(..), Occupied(_) => return Err(..) }`
+            fl_ = b.prov.flows_forward(t["dest"]["local"])
+            checked_insert = any(e.label and e.label[0] == "variant" and e.label[2] == ("Occupied",) and e.label[3] and e.label[3]["local"] in fl_ and
+                                 any(bb_ in b.dominated_by_edge(e) for (bb_, _) in b.aggregates("Result", "Err")) for e in b.edges)
         # the test must sit on the path that produces the yaml::Config consumed here: in the loader (caller-side dominance is established by types: the map is
         # built from yaml::Config, which only the loader constructs)
         loader_tests = [(tb, e) for (tb, e) in dup_tests if e is None or _constructs_after(ctx, tb, e)]
@@ -1004,7 +1013,11 @@ def name_regex(ctx):
         found = []
         for hb in f.user_bodies():
             for sbb, st_ in hb.calls():
-                if not (re.search(r"str>::strip_suffix(::<.*>)?$", callee_base(st_)) and len(st_["args"]) > 1 and '".output"' in atom_consts(hb.prov.operand_atoms(st_["args"][1], interproc=False))):
+                if not (re.search(r"str>::strip_suffix(::<.*>)?$", callee_base(st_)) and len(st_["args"]) > 1):
+                    continue
+                sat = hb.prov.operand_atoms(st_["args"][1], interproc=False)
+                lits = set(atom_consts(sat)) | {f.const_value(a[1].split("::")[-1]) for a in sat if a[0] in ("constdef", "const") and isinstance(a[1], str) and re.match(r"[\w:]+$", a[1])}
+                if '".output"' not in lits:
                     continue
                 fl = hb.prov.flows_forward(st_["dest"]["local"])
                 pcs = [pb for pb, pt in hb.calls() if callee_base(pt) in parsers and pt["args"] and operand_local(pt["args"][0]) in fl]
